@@ -72,8 +72,9 @@ func mkC09(v9 bool) *c09env {
 }
 
 type perturbation struct {
-	kind string
-	set  ref.Set
+	kind  string
+	set   ref.Set
+	early bool // the set is a data set of a template that the SAME message defines only further on
 }
 
 func (e *c09env) perturbations(tier string) []perturbation {
@@ -101,17 +102,26 @@ func (e *c09env) perturbations(tier string) []perturbation {
 			if tier != "thorough" && id > lo+3 && id < 253 && bi != 0 && bi != 5 && bi < 10 {
 				continue // quick: all ids with 3 bodies, 7 boundary ids with all bodies
 			}
-			ps = append(ps, perturbation{fmt.Sprintf("reserved-id-%d/body%d", id, bi), ref.Set{Kind: ref.SetRaw, RawID: uint16(id), RawBody: b}})
+			ps = append(ps, perturbation{fmt.Sprintf("reserved-id-%d/body%d", id, bi), ref.Set{Kind: ref.SetRaw, RawID: uint16(id), RawBody: b}, false})
 		}
 	}
 	for _, id := range []uint16{256, 999, 65535} {
 		for bi, b := range bodies {
-			ps = append(ps, perturbation{fmt.Sprintf("unknown-template-%d/body%d", id, bi), ref.Set{Kind: ref.SetRaw, RawID: id, RawBody: b}})
+			ps = append(ps, perturbation{fmt.Sprintf("unknown-template-%d/body%d", id, bi), ref.Set{Kind: ref.SetRaw, RawID: id, RawBody: b}, false})
+		}
+	}
+	// data for templates 300 / 303 placed BEFORE the template sets of the message (templates in-message only):
+	// undecodable where it stands, and it must not stop the later data sets of the same id from decoding
+	for _, id := range []uint16{300, 303} {
+		for bi, b := range bodies {
+			if bi == 6 || bi == 10 || bi == 12 {
+				ps = append(ps, perturbation{fmt.Sprintf("early-use-of-template-%d/body%d", id, bi), ref.Set{Kind: ref.SetRaw, RawID: id, RawBody: b}, true})
+			}
 		}
 	}
 	for _, id := range []uint16{310, 311} {
 		for bi, b := range bodies {
-			ps = append(ps, perturbation{fmt.Sprintf("absent-element-tpl-%d/body%d", id, bi), ref.Set{Kind: ref.SetRaw, RawID: id, RawBody: b}})
+			ps = append(ps, perturbation{fmt.Sprintf("absent-element-tpl-%d/body%d", id, bi), ref.Set{Kind: ref.SetRaw, RawID: id, RawBody: b}, false})
 		}
 	}
 	return ps
@@ -164,7 +174,16 @@ func perturbSpace(v9 bool, tier string) mck.Space {
 		}
 		sets := append([]ref.Set{}, base...)
 		desc := "unperturbed"
-		if d[2] > 0 {
+		var early *ref.Set
+		if d[2] > 0 && ps[d[2]-1].early {
+			if d[3] != 1 || pos != 0 {
+				c.Skip()
+				return
+			}
+			e0 := ps[d[2]-1].set
+			early = &e0
+			desc = ps[d[2]-1].kind + " placed before the template sets"
+		} else if d[2] > 0 {
 			p := ps[d[2]-1]
 			desc = fmt.Sprintf("%s inserted at set position %d", p.kind, pos)
 			sets = append(append(append([]ref.Set{}, base[:pos]...), p.set), base[pos:]...)
@@ -174,7 +193,10 @@ func perturbSpace(v9 bool, tier string) mck.Space {
 		inMsg := d[3] == 1
 		m := &ref.Msg{V9: v9, Hdr: hdrFor(v9, 3)}
 		if inMsg {
-			m.Sets = append(append([]ref.Set{}, tsets...), sets...)
+			if early != nil {
+				m.Sets = append(m.Sets, *early)
+			}
+			m.Sets = append(append(m.Sets, tsets...), sets...)
 		} else {
 			flowh.Decode(v9, addr, (&ref.Msg{V9: v9, Hdr: hdrFor(v9, 6), Sets: tsets}).Encode(e.tpls), caches)
 			m.Sets = sets
